@@ -78,6 +78,32 @@ def run(R):
             if (lines[-1][1] == "N") != (not out.endswith(b"\n")):
                 R.oracle_fail("final newline rule violated", {"request": q, "observed": x})
     R.dist["modes x input x final newline"] = dist
+    # the patch side: every line read from a patch (all three formats) carries the terminator class it has in the patch text,
+    # and the "\\ No newline at end of file" marker on either side
+    import emit
+    from props import c13
+    preqs, pmeta = [], {}
+    for _ in range(2500 if quick else 40000):
+        crlf = rng.random() < 0.5
+        a = gen.rand_file(rng, 8, crlf_p=(0.9 if crlf else 0.0), nonl_p=0.3)
+        b = gen.edit(rng, a)
+        a = [(c, t) for c, t in a if not c.endswith(b"\r") and b"\x00" not in c]; b = [(c, t) for c, t in b if not c.endswith(b"\r") and b"\x00" not in c]
+        if a == b:
+            continue
+        ctx = rng.choice([0, 1, 3])
+        hs = gen.make_hunks(a, b, ctx)
+        for fmt, text, ref in (("unified", emit.unified_text(hs), hs), ("context", emit.context_text(hs), hs), ("normal", emit.normal_text(gen.make_hunks(a, b, 0)), gen.make_hunks(a, b, 0))):
+            q = f"parse {gen.hexb(text)} {rng.choice([fmt, 'unknown'])} -1"
+            preqs.append(q); pmeta[q] = ref
+    qs, ri, rm = R.tie("T4-parse-terminators", preqs)
+    for q, x in zip(qs, ri):
+        ref = pmeta[q]
+        got = c13.parse_hunks_from_resp(x)
+        if got is None or len(got) != len(ref):
+            R.oracle_fail(f"a diff with CRLF lines / no-newline markers is not parsed into its hunks ({x[:60]})", {"request": q, "observed": x}); continue
+        for g, h in zip(got, ref):
+            if gen.old_side(g) != gen.old_side(h) or gen.new_side(g) != gen.new_side(h):
+                R.oracle_fail("a line read from the patch does not carry the terminator (LF / CRLF / none) it has in the patch text", {"request": q, "observed": x}); break
 
 
 RULE = ("readlines: random byte strings over {a,b,LF,CR,CRLF,SP,\\\\,NUL}; apply: generated (file with LF/CRLF/mixed terminators and with or "
